@@ -944,6 +944,10 @@ class Audit:
                     t_ = sy
                     while t_[0] == "un" and t_[1] == "Not" and v_ is not None:
                         t_, v_ = t_[2], not v_
+                    # one spelling per comparison: `a != b` is not (a == b), `a >= b` is not (a < b), `a > b` is not (a <= b)
+                    FLIP = {"Ne": "Eq", "Ge": "Lt", "Gt": "Le"}
+                    if v_ is not None and t_[0] == "bin" and t_[1] in FLIP:
+                        t_, v_ = ("bin", FLIP[t_[1]], t_[2], t_[3]), not v_
                     if v_ is not None:
                         got[M.show(t_, -20)] = v_
             for r in conds:
